@@ -1388,11 +1388,15 @@ class OptionStore:
                 self.pending_subproject_options[key] = valstr
                 continue
 
-            self.pending_subproject_options.pop(key, None)
             self.pending_options.pop(key, None)
             if key not in self.augments:
                 self.set_user_option(key, valstr, True)
 
+        # only forget the parent's sub:opt defaults once every value was accepted, so
+        # that a retry after a rejected value still sees them
+        for key in options:
+            if key.subproject == subproject:
+                self.pending_subproject_options.pop(key, None)
         self.subprojects.add(subproject)
 
     def update_project_options(self, project_options: MutableKeyedOptionDictType, subproject: SubProject) -> None:
